@@ -329,6 +329,34 @@ std::string op_tree_more(std::string const &_op, line_t const &L)
     event_log const log{g_log};
     return finish(r.has_value() ? "J" : "N", r.has_value() ? tree_slots(r.get_unsafe()) : "-", {tree_slots(t)}, log);
   }
+  if (_op == "treeswap")
+  {
+    // argument 0 = the two root values, 1 / 2 = the children of the first / second tree, 3 = nothing (the model's scratch list)
+    need(L.args.size() == 4 && L.n(0) == 2 && L.n(3) == 0 && L.par.empty());
+    for (std::size_t i = 0; i < 4; ++i)
+      need(L.cat(i) == 'i');
+    tree<T> t{T{L.args[0].ids[0]}, mk_children<T>(L.args[1])};
+    tree<T> u{T{L.args[0].ids[1]}, mk_children<T>(L.args[2])};
+    mark_deep(t);
+    mark_deep(u);
+    g_log.clear();
+    t.swap(u);
+    event_log const log{g_log};
+    slots_t roots;
+    roots.add(t.value());
+    roots.add(u.value());
+    return finish("-", "-", {roots.str(), children_slots(t), children_slots(u), "-"}, log);
+  }
+  if (_op == "treesortpred")
+  {
+    need(L.args.size() == 1 && L.cat(0) == 'i' && L.par.empty());
+    auto t{mk_tree<T>(L.args[0])};
+    mark(t);
+    g_log.clear();
+    t.sort([](T const &a, T const &b) { return a.read() < b.read(); });
+    event_log const log{g_log};
+    return finish("-", "-", {tree_slots(t)}, log);
+  }
   if (_op == "treeerase" || _op == "treeeraserange" || _op == "treeclear" || _op == "treesort")
   {
     need(L.args.size() == 1 && L.cat(0) == 'i');
@@ -370,7 +398,7 @@ bool dispatch(std::string const &_op, line_t const &L, std::string &_out)
   if (_op == "treectortree" || _op == "treectorchildren" || _op == "treeassign" || _op == "treeselfassign" || _op == "treesetvalue" ||
       _op == "treepushfrontval" || _op == "treeinsertval" || _op == "treepushfronttree" || _op == "treeinserttree" ||
       _op == "treepopback" || _op == "treepopfront" || _op == "treeerase" || _op == "treeeraserange" || _op == "treeclear" ||
-      _op == "treesort")
+      _op == "treesort" || _op == "treeswap" || _op == "treesortpred")
     return (_out = op_tree_more<T>(_op, L), true);
   return false;
 }
